@@ -35,7 +35,7 @@ Export == PrintT(<<"IDS", ToJson([items |-> [i \in DOMAIN inp.items |-> [id |-> 
                                    asg |-> [p \in 1..Cardinality(Preds) |-> inp.asg[p]],
                                    ok |-> Res.ok, ids |-> Res.ids, err |-> Res.err])>>)
 IdsQuick == {-1, 0, 1, 255}
-IdsEdge == {-1, 0, 127, 128, 254, 255}
+IdsEdge == {-1, 0, 127, 128, 254, 255, 256, 257, 65536}
 IdsTiny == {-1, 1}
 NoPreds == {}
 ThreePreds == {1, 2, 3}
